@@ -14,12 +14,15 @@ Lane(row, t, i) == SubSeq(row, i * NB(t) + 1, (i + 1) * NB(t))
 \* batch): ordinal distance <= 2 B + 1 (B2 + 1 half ulps, rounded up) and the same special class
 \* magnitude below 16 * MIN (the graceful-underflow zone of C10/C11)
 Tiny(f, y) == LET d == Dec(f, y) IN d.cls \in {"zero", "sub"} \/ (d.cls = "normal" /\ d.ef <= 4)
+\* infinite, or finite of magnitude >= 2^(emax-k): k = 2 covers everything from MAX/4 up, k = 4 everything from MAX/16 up (both on the lenient side)
+Big(f, y, k) == LET d == Dec(f, y) IN d.cls = "inf" \/ (d.cls = "normal" /\ d.ef >= 2 * Bias(f) - k)
 CloseOK(fn, f, x, y1, y2) ==
   LET c1 == Class(f, y1)  c2 == Class(f, y2) IN
   IF Class(f, x) \in {"sub", "inf", "nan"} THEN TRUE        \* C10/C11 bound the error for finite non-subnormal arguments only (specials: C12)
   ELSE IF c1 = "nan" \/ c2 = "nan" THEN c1 = c2
   ELSE IF Tiny(f, y1) /\ Tiny(f, y2) THEN TRUE             \* both in the underflow zone: graceful degradation, not an ulp bound
-  ELSE IF c1 = "inf" \/ c2 = "inf" THEN y1 = y2
+  ELSE IF Big(f, y1, 2) \/ Big(f, y2, 2)                    \* one result at or beyond about MAX/4: the overflow zone of C10/C11 - the other must be
+       THEN Big(f, y1, 4) /\ Big(f, y2, 4) /\ Dec(f, y1).s = Dec(f, y2).s      \* +-inf or >= MAX/16 with the same sign, not within ulps
   ELSE IF fn = "lgamma" /\ Dec(f, y1).ef < Bias(f) /\ Dec(f, y2).ef < Bias(f)
        THEN \* lgamma's bound is in ulps of max(|result|, 1): below 1 compare |y1 - y2| with (2B+1) half-ulps of 1.0 = (2B+1) * 2^-p
             LET d1 == Dec(f, y1)  d2 == Dec(f, y2)
